@@ -109,6 +109,22 @@ func (u *c15UnitGen) write(proto string) string {
 	}
 }
 
+// bigWrite: one unit larger than 65535 bytes (a big key frame): the 64-bit WebSocket length form, and a write during
+// which a short queue can fill up
+func (u *c15UnitGen) bigWrite(proto string, n int) string {
+	switch proto {
+	case "flv", "wsflv":
+		return "W:" + hx(httpflv.PackHttpflvTag(9, uint32(u.n*40), u.payload(n)))
+	case "ts", "wsts":
+		f := mpegts.Frame{Pid: mpegts.PidVideo, Sid: mpegts.StreamIdVideo, Key: true, Pts: uint64(u.n * 3600), Dts: uint64(u.n * 3600),
+			Cc: u.cc[mpegts.PidVideo], Raw: u.payload(n)}
+		out := append([]byte(nil), f.Pack()...)
+		u.cc[mpegts.PidVideo] = f.Cc
+		return "W:" + hx(out)
+	}
+	return u.write(proto)
+}
+
 func c15Prologue(proto string) []string {
 	switch proto {
 	case "flv", "wsflv":
@@ -153,6 +169,28 @@ func genC15(g *G) {
 		}
 		evs = append(evs, "r", u.write(p), "R", u.write(p))
 		g.L("S18-witness").run(fmt.Sprintf("q.sess %s 2 %s", p, strings.Join(evs, ";")))
+	}
+
+	// a unit of more than 65535 bytes meeting a queue that is empty / part full / full, on a stalled consumer that later
+	// resumes: whatever arrives is whole units
+	for _, p := range []string{"flv", "wsflv", "ts", "wsts"} {
+		for _, cap := range []int{2, 4} {
+			for before := 0; before <= cap+1; before++ {
+				for _, n := range []int{65536, 70000, 150000} {
+					if n != 70000 && before%2 == 1 && !g.thorough() {
+						continue
+					}
+					u := newUG()
+					evs := append([]string{}, c15Prologue(p)...)
+					evs = append(evs, u.write(p), "S")
+					for i := 0; i < before; i++ {
+						evs = append(evs, u.write(p))
+					}
+					evs = append(evs, u.bigWrite(p, n), u.write(p), u.write(p), "r", "r", "R", u.write(p), u.write(p))
+					g.L("corpus-big-unit-" + p).run(fmt.Sprintf("q.sess %s %d %s", p, cap, strings.Join(evs, ";")))
+				}
+			}
+		}
 	}
 
 	// boundary corpus: every protocol × capacity 2..4 × the consumer stalls after k units, the queue overflows by
